@@ -14,6 +14,12 @@ ASSUMPTIONS = ['numerals that are not plain decimal digits are a don\'t-care for
                'leniency inside a PDS carrier (truncated last sub-element) is outside the statement, which is about elements']
 
 
+THREADS = True
+
+
+def thread_ok(case):
+    return not case.get('warm')
+
 def gen(rng, tier):
     cases = [{'cfg': None, 'codec': 'latin_1', 'hex': False,
               'bytes': (b'1144' + bytes.fromhex('60000000000000000000000000000000') + b'-21234').hex(), 'mut': 'witness'}]
@@ -136,6 +142,9 @@ def gen(rng, tier):
             cases.append(dict(base, bytes=(b + bytes(rng.randrange(256) for _ in range(d))).hex(), mut='extended'))
         for _ in range(4):
             cases.append(dict(base, bytes=iu.mutate(rng, b).hex(), mut='multi'))
+        if hexbm:
+            for bb in iu.hex_bitmap_blanks(rng, b):
+                cases.append(dict(base, bytes=bb.hex(), mut='bitmap-blanks'))
     return cases
 
 
